@@ -11,7 +11,7 @@ from props import producer_check as PC
 
 THEOREMS = ["C19_dispatch_iff", "C19_no_due_batch_waits", "C19_deferred_threshold", "C19_no_starvation", "C19_queue_exit",
             "C19_counters_exact", "C19_cancel_before_dispatch", "C19_cancelled_never_sent", "C19_cancel_after",
-            "C19_stop", "C19_stop_cancellation", "C19_send_refused_when_stopping", "C19_stop_gives_stopped",
+            "C19_stop", "C19_stop_cancellation", "C19_stop_outcomes", "C19_looper_until_stop", "C19_send_refused_when_stopping", "C19_stop_gives_stopped",
             "C19_nothing_after_stop"]
 ACTIVITY = (1, 2, 4, 5, 6)     # produce, callLater, reset metadata, load metadata, version lookup
 
@@ -118,9 +118,28 @@ def monitor(run):
                     if o[0] == 7 and not (o[2] == 0 and o[3] in (L.K_CANCEL, L.K_TIDCANCEL)):
                         bad.append((i, "stop: outcome %r of stop() is not a cancellation error" % (o,)))
             else:
+                # C19_stop_outcomes: a cancellation, or what the value delivered by the cancelled client Deferred
+                # says about the send's payload
+                v = run.pyevents[i][1]
+                kinds = {L.K_CANCEL, L.K_TIDCANCEL}
+                acks_ok = set()
+                if v[0] in ("kafka", "other"):
+                    kinds.add(v[1])
+                elif v[0] == "empty":
+                    kinds.add(L.K_NORESP)
+                if v[0] in ("resp", "failed"):
+                    kinds |= {L.K_BROKER + e for (_t, _p, e, _o) in v[1] if e != 0}
+                    acks_ok = {(t, p, 0, o) for (t, p, e, o) in v[1] if e == 0}
+                if v[0] == "failed":
+                    kinds |= {k for (_t, _p, k) in v[2]}
                 for o in outs:
-                    if o[0] == 7 and o[2] == 3:
-                        bad.append((i, "stop: success carrying an exception %r" % (o,)))
+                    if o[0] != 7:
+                        continue
+                    ok = ((o[2] == 0 and o[3] in kinds) or (o[2] == 1 and tuple(o[3:7]) in acks_ok)
+                          or (o[2] == 2 and cfg["acks"] == 0 and v[0] in ("empty", "failed")))
+                    if not ok:
+                        bad.append((i, "stop: outcome %r of stop() is neither a cancellation nor what the value %r delivered by the "
+                                       "cancelled client Deferred says" % (o, v)))
             stopped = True
         # C19_no_due_batch_waits
         if not stopped and not after["busy"]:
